@@ -32,15 +32,16 @@ def plan(plan, tier, seed):
         plan.anchor_errors.append((np_, str(e)))
     plan.dropped.append(vC10.paragraph_element_fn.__doc__.strip())
     nc_ = "C10.verus.comment.inert_but_for_inline_expressions"
-    plan.ob(nc_, "verus", "proved", functions=["src/interpreter/src/mechdown.rs: comment (whole body)", "section_element (the Paragraph arm)"],
+    plan.ob(nc_, "verus", "proved", functions=["src/interpreter/src/mechdown.rs: comment (whole body)", "section_element (the Paragraph, Table and FigureTable arms)"],
             what="a comment attached to code, and a paragraph, write no variable, never fail, and evaluate exactly the inline `{..}` expressions they contain, each once, in document order (proved against the contract proved for paragraph_element)")
     try:
-        plan.verus.append(VerusUnit("c10_comment", vC10.comment_unit(text), {"comment": nc_, "paragraph_arm": nc_}, ["canary_c10_comment"]))
+        plan.verus.append(VerusUnit("c10_comment", vC10.comment_unit(text), {"comment": nc_, "paragraph_arm": nc_, "table_arm": nc_, "figure_table_arm": nc_}, ["canary_c10_comment"]))
     except AnchorLost as e:
         plan.anchor_errors.append((nc_, str(e)))
     plan.dropped.append(vC10.comment_fn.__doc__.strip())
     plan.dropped.append(vC10._para_loop.__doc__.strip())
     plan.dropped.append(vC10.paragraph_arm_fn.__doc__.strip())
+    plan.dropped.append(vC10.table_arms_fn.__doc__.strip())
     # syntactic pass over the prose arms (labelled: backend syntactic, level bounded; never counted as proved)
     try:
         seen = {}
